@@ -67,11 +67,23 @@ def build_db(source, **kwargs):
     from pydbml import PyDBML
     if source[0] == 'api':
         return build_api(MODELS[source[1]], **kwargs)
+    if source[0] == 'text':
+        return PyDBML(TABLELESS[source[1]], **kwargs)
     return PyDBML(get_doc(source[1]), allow_properties=(source[1][0] == 'p'), **kwargs)
+
+
+# databases without any table (an attached element must still render through the configured classes: an empty
+# container is still the element's database)
+TABLELESS = [
+    "Enum level {\n  low\n  high [note: 'top']\n}\n",
+    "Project p {\n  database_type: 'PostgreSQL'\n  Note: 'about'\n}\n\nNote reminder {\n  'text'\n}\n",
+    "Enum s1.kind {\n  a\n  b\n}\n\nEnum other {\n  x\n}\n\nProject q {\n  author: 'me'\n}\n",
+]
 
 
 def sources():
     out = [['api', i] for i in range(len(MODELS))]
+    out += [['text', i] for i in range(len(TABLELESS))]
     out += [['doc', r] for r in valid_refs()]
     out += [['doc', ['p', i]] for i in range(len(DOCS_PROPS))]
     return out
@@ -241,7 +253,7 @@ class Renderers(BObl):
             'handled; fresh and removed elements render with the defaults and never call the custom handlers.  Plus, '
             'with the default renderers, each top-level element text (inline references excluded) must be a '
             'blank-line-delimited piece of the database text exactly as often as it occurs')
-    bound = 'exhaustive over ~50 sources x (4 custom renderer pairs + default)'
+    bound = 'exhaustive over ~50 sources (three of them databases without tables) x (4 custom renderer pairs + default)'
     budget = {'quick': 20.0, 'thorough': 60.0}
 
     def cases(self, tier, seed):
